@@ -1,9 +1,311 @@
 import ShpanVerif.Util.Parse
-/- Driver handler for C20 (stub: replaced when the property's model lands). -/
+import ShpanVerif.Model.JsonFrame
+import ShpanVerif.Model.FileScan
+/-
+Driver handler for C20.  Case kinds (see harness/run/c20.go):
+  arr <w|wi|rd> <initok 0|1> <elems>       elems := "-" | e,e,…   e := hex of the element's JSON text | "X" (unmarshalable)
+      obs: out=<hex|-> init=<n|-> werr=<nil|init|marshal> back=<ok:<hexlist>|err:open|err:emit|skip>
+  rdarr <ws 0|1|2> <elems>                 a well-formed array document with white-space pattern ws
+      obs: ok <hexlist> | err open | err emit
+  rdobj <ws> <entries>                     entries := "-" | k:v,…  (k = hex of the escape-free key, v = hex value)
+      obs: ok <k:v list> | err open | err emit
+  rdbad <arr|obj> <dochex>                 hand-made (malformed or foreign) document
+  lazy <alone|field> <v:hex|empty|err|nullv|raw:hex>
+      obs: m=<hex|err|panic> um=<ok|err|-> get=<ok:hex|empty|err|panic|->
+  file <fwd|rev> <lf|crlf> <nl|nonl> <runs>  runs := "-" | L<len>[x<count>] …   (line i = content(i,len))
+  raw <fwd|rev> <hex|->                      small file given literally
+  missing <fwd|rev>
+      obs: ok n=<n> stable=<0|1> <tok>… | ok n=<n> stable=<0|1> all=<digest> | err toolong | err <class>
+           tok := h<hex> (≤ 16 bytes) | d<len>:<fnv1a-64 hex>
+-/
 namespace ShpanVerif.Drive.C20
+open ShpanVerif.Util ShpanVerif.Model
+
+abbrev Bytes := List UInt8
+
+/-! ### hex, digests -/
+
+def hexDigit (n : Nat) : Char := if n < 10 then Char.ofNat (48 + n) else Char.ofNat (87 + n)
+
+def hexOfBytes (b : Bytes) : String :=
+  String.ofList (b.foldr (fun x acc => hexDigit (x.toNat / 16) :: hexDigit (x.toNat % 16) :: acc) [])
+
+def hexVal (c : Char) : Option Nat :=
+  if '0' ≤ c ∧ c ≤ '9' then some (c.toNat - 48)
+  else if 'a' ≤ c ∧ c ≤ 'f' then some (c.toNat - 87)
+  else none
+
+/-- tail-recursive: pairs of hex digits -/
+def unhexGo : List Char → Bytes → Option Bytes
+  | [], acc => some acc.reverse
+  | [_], _ => none
+  | a :: b :: r, acc =>
+    match hexVal a, hexVal b with
+    | some x, some y => unhexGo r (UInt8.ofNat (x * 16 + y) :: acc)
+    | _, _ => none
+
+def unhex (s : String) : Option Bytes := if s == "-" then some [] else unhexGo s.toList []
+
+def fnv64 (b : Bytes) : UInt64 :=
+  b.foldl (fun h x => (h ^^^ x.toUInt64) * 1099511628211) 14695981039346656037
+
+def hex16 (h : UInt64) : String :=
+  String.ofList ((List.range 16).map (fun i => hexDigit ((h.toNat / 16 ^ (15 - i)) % 16)))
+
+def tokOf (l : Bytes) : String :=
+  if l.length ≤ 16 then "h" ++ hexOfBytes l else s!"d{l.length}:{hex16 (fnv64 l)}"
+
+def fmtLines (stable : Bool) (ls : List Bytes) : String :=
+  let toks := ls.map tokOf
+  let head := s!"ok n={ls.length} stable={boolStr stable}"
+  if ls.length ≤ 40 then " ".intercalate (head :: toks)
+  else head ++ " all=" ++ hex16 (fnv64 (" ".intercalate toks).toUTF8.toList)
+
+/-! ### JSON cases -/
+
+def hexList (es : List Bytes) : String := fmtList hexOfBytes es
+
+/-- elements: `none` = the unmarshalable value -/
+def parseElems (s : String) : Option (List (Option Bytes)) :=
+  if s == "-" then some []
+  else (s.splitOn ",").mapM (fun t => if t == "X" then some none else (unhex t).map some)
+
+def werrStr : Option JsonFrame.WErr → String
+  | none => "nil" | some .init => "init" | some .marshal => "marshal"
+
+def rerrStr : JsonFrame.RErr → String
+  | .openErr => "open" | .emitErr => "emit"
+
+def backStr (r : Except JsonFrame.RErr (List Bytes)) : String :=
+  match r with
+  | .ok l => "ok:" ++ hexList l
+  | .error e => "err:" ++ rerrStr e
+
+def outStr (b : Bytes) : String := if b.isEmpty then "-" else hexOfBytes b
+
+def handleArr (helper : String) (initOk : Bool) (elems : List (Option Bytes)) (obs : String) : String × Bool × String :=
+  let enc : Option Bytes → Option Bytes := id
+  let (out, initS, werr) : Bytes × String × Option JsonFrame.WErr :=
+    if helper == "rd" then
+      let (o, e) := JsonFrame.writeAsReader enc elems
+      (o, "-", e)
+    else
+      let (o, n, e) := JsonFrame.writeWithInit initOk enc elems
+      (o, if helper == "wi" then toString n else "-", e)
+  let back := if werr.isSome then "skip" else backStr (JsonFrame.readArray some (JsonFrame.jsonLex out))
+  let model := s!"out={outStr out} init={initS} werr={werrStr werr} back={back}"
+  -- the property on the observation, for streams whose elements all marshal and whose init hook succeeds:
+  -- bytes = "[" e1 "," e2 … "]" (computed on the hex text), init ran once, read-back = the elements
+  if elems.all Option.isSome && initOk then
+    let es := elems.filterMap id
+    let wantOut := "5b" ++ ",".intercalate [] ++ "2c".intercalate (es.map hexOfBytes) ++ "5d"
+    let wantInit := if helper == "wi" then "1" else "-"
+    let want := s!"out={wantOut} init={wantInit} werr=nil back=ok:{hexList es}"
+    (model, obs == want, if obs == want then "" else s!"want {want}")
+  else (model, true, "n/a: failing init hook or unmarshalable element")
+
+def wsOf (ws : Nat) (i : Nat) : Bytes :=
+  match ws with
+  | 0 => []
+  | 1 => [0x20]
+  | _ => match i % 4 with | 0 => [0x0A, 0x09] | 1 => [] | 2 => [0x20, 0x20, 0x0D] | _ => [0x09]
+
+/-- "[" e1 "," e2 … "]" with white space between the tokens -/
+def buildArrDoc (ws : Nat) (es : List Bytes) : Bytes :=
+  let rec go (i : Nat) : List Bytes → Bytes
+    | [] => []
+    | [e] => wsOf ws i ++ e ++ wsOf ws (i + 1)
+    | e :: r => wsOf ws i ++ e ++ wsOf ws (i + 1) ++ [JsonFrame.bComma] ++ go (i + 2) r
+  wsOf ws 7 ++ [JsonFrame.bLBr] ++ go 0 es ++ (if es.isEmpty then wsOf ws 3 else []) ++ [JsonFrame.bRBr] ++ wsOf ws 5
+
+def buildObjDoc (ws : Nat) (es : List (Bytes × Bytes)) : Bytes :=
+  let ent (i : Nat) (kv : Bytes × Bytes) : Bytes :=
+    wsOf ws i ++ [JsonFrame.bQuote] ++ kv.1 ++ [JsonFrame.bQuote] ++ wsOf ws (i + 1) ++ [JsonFrame.bColon] ++
+      wsOf ws (i + 2) ++ kv.2 ++ wsOf ws (i + 3)
+  let rec go (i : Nat) : List (Bytes × Bytes) → Bytes
+    | [] => []
+    | [e] => ent i e
+    | e :: r => ent i e ++ [JsonFrame.bComma] ++ go (i + 4) r
+  wsOf ws 7 ++ [JsonFrame.bLBc] ++ go 0 es ++ (if es.isEmpty then wsOf ws 3 else []) ++ [JsonFrame.bRBc] ++ wsOf ws 5
+
+def parseEntries (s : String) : Option (List (Bytes × Bytes)) :=
+  if s == "-" then some []
+  else (s.splitOn ",").mapM (fun t => match t.splitOn ":" with
+    | [k, v] => do let k ← unhex (if k == "" then "-" else k); let v ← unhex v; pure (k, v)
+    | _ => none)
+
+def entStr (kv : Bytes × Bytes) : String := hexOfBytes kv.1 ++ ":" ++ hexOfBytes kv.2
+
+/-- object keys of the generated documents need no escapes: decoding = dropping the quotes -/
+def unquote (k : Bytes) : Bytes := (k.drop 1).dropLast
+
+def arrObs (r : Except JsonFrame.RErr (List Bytes)) : String :=
+  match r with
+  | .ok l => "ok " ++ hexList l
+  | .error e => "err " ++ rerrStr e
+
+def objObs (r : Except JsonFrame.RErr (List (Bytes × Bytes))) : String :=
+  match r with
+  | .ok l => "ok " ++ fmtList entStr (l.map (fun kv => (unquote kv.1, kv.2)))
+  | .error e => "err " ++ rerrStr e
+
+/-! ### Lazy -/
+
+def holderPre : Bytes := "{\"a\":1,\"l\":".toUTF8.toList
+def holderPost : Bytes := ",\"z\":\"x\"}".toUTF8.toList
+
+def loutStr : JsonFrame.LOut Bytes → String
+  | .ok v => "ok:" ++ hexOfBytes v | .err => "err" | .emptyErr => "empty" | .panic => "panic"
+
+def handleLazy (mode src : String) (obs : String) : String × Bool × String :=
+  let enc : Bytes → Option Bytes := some
+  let dec : Bytes → Option Bytes := some
+  let zero : JsonFrame.Lazy Bytes := { fetcher := .nilFn }
+  let finish (m : String) (data : Bytes) (want : Option String) : String × Bool × String :=
+    -- unmarshal into a zero Lazy (a fresh variable / a fresh struct field), then Get
+    let (l2, ok) := JsonFrame.Lazy.unmarshal dec zero data
+    let model := s!"m={m} um={if ok then "ok" else "err"} get={loutStr l2.get}"
+    match want with
+    | some g =>
+      let good := obs == s!"m={m} um=ok get={g}"
+      (model, good, if good then "" else s!"want m={m} um=ok get={g}")
+    | none => (model, true, "n/a")
+  let wrap (b : Bytes) : Bytes := if mode == "field" then holderPre ++ b ++ holderPost else b
+  let fromLazy (l : JsonFrame.Lazy Bytes) (want : Option String) : String × Bool × String :=
+    match JsonFrame.Lazy.marshal enc l with
+    | .ok b => finish (hexOfBytes (wrap b)) b want
+    | .err => ("m=err um=- get=-", obs == "m=err um=- get=-", "a failing fetcher must fail the marshalling")
+    | _ => ("m=panic um=- get=-", true, "n/a")
+  if src == "empty" then fromLazy { fetcher := .gives none } (some "empty")
+  else if src == "err" then fromLazy { fetcher := .fails } none |> fun (m, _, _) => (m, obs == m, "a failing fetcher must fail the marshalling")
+  else if src == "nullv" then fromLazy { fetcher := .gives (some JsonFrame.nullLit) } none
+  else if src.startsWith "v:" then
+    match unhex (src.drop 2).toString with
+    | some v => fromLazy { fetcher := .gives (some v) } (if v = JsonFrame.nullLit then none else some ("ok:" ++ hexOfBytes v))
+    | none => ("bad-case", false, "unparsable case")
+  else if src.startsWith "raw:" then
+    match unhex (src.drop 4).toString with
+    | some d => finish "-" d (some (if d = JsonFrame.nullLit then "empty" else "ok:" ++ hexOfBytes d))
+    | none => ("bad-case", false, "unparsable case")
+  else ("bad-case", false, "unparsable case")
+
+/-! ### Files -/
+
+/-- byte `j` of line `idx` -/
+def contentByte (idx j : Nat) : UInt8 := UInt8.ofNat (97 + (idx * 7 + j * 3 + j / 29) % 26)
+
+def lineContent (idx len : Nat) : Bytes := (List.range len).map (contentByte idx)
+
+/-- "L4096x3" → [4096,4096,4096] -/
+def parseRun (t : String) : Option (List Nat) :=
+  if !t.startsWith "L" then none
+  else match ((t.drop 1).toString).splitOn "x" with
+    | [n] => n.toNat?.map (fun n => [n])
+    | [n, k] => do let n ← n.toNat?; let k ← k.toNat?; pure (List.replicate k n)
+    | _ => none
+
+def parseRuns (ts : List String) : Option (List Nat) :=
+  match ts with
+  | ["-"] => some []
+  | _ => (ts.mapM parseRun).map List.flatten
+
+def realBuf : Nat := 4096
+def realMax : Nat := 65536
+
+def errStr : FileScan.ScanErr → String
+  | .tooLong => "toolong" | .readEOF => "readeof" | .fuel => "model-fuel"
+
+def resStr (r : List Bytes × Option FileScan.ScanErr) : String :=
+  match r.2 with
+  | some e => "err " ++ errStr e
+  | none => fmtLines true r.1
+
+def runModel (rev : Bool) (f : Bytes) : String :=
+  resStr (if rev then FileScan.reverseScan realBuf realMax f else FileScan.forwardScan realMax f)
+
+/-- Verdict for a file case. `lines` = the file's lines (independent of any scanning), `rawMax` = the longest
+raw line (with its '\r'), `startsNL` = the file starts with '\n'. -/
+def fileVerdict (rev nl : Bool) (lines : List Bytes) (rawMax : Nat) (startsNL : Bool) (obs : String) : Bool × String :=
+  if rev && !nl && !lines.isEmpty then (true, "n/a: reverse over a file without trailing newline")
+  else
+    let want := fmtLines true (if rev then lines.reverse else lines)
+    if obs == want then (true, "")
+    else if (!rev && rawMax ≥ realMax) || (rev && rawMax + 1 ≥ realMax / 2) then
+      (false, s!"KF:F2 line of {rawMax} bytes; want {want.take 200}")
+    else if rev && startsNL then (false, s!"KF:F1 leading empty line; want {want.take 200}")
+    else (false, s!"want {want.take 300}")
+
+def handleFile (ts : List String) (obs : String) : String × Bool × String :=
+  match ts with
+  | dir :: eol :: tnl :: runs =>
+    match parseRuns runs with
+    | none => ("bad-case", false, "unparsable case")
+    | some lens0 =>
+      let rev := dir == "rev"
+      let crlf := eol == "crlf"
+      let nl := tnl == "nl"
+      -- an unterminated empty last line is no line
+      let lens := if !nl && lens0.getLast? == some 0 then lens0.dropLast else lens0
+      let nl := nl || (lens.length < lens0.length)
+      let lines := (List.range lens.length).zip lens |>.map (fun (i, n) => lineContent i n)
+      let term : Bytes := if crlf then [FileScan.CR, FileScan.NL] else [FileScan.NL]
+      let n := lines.length
+      let f : Bytes := ((List.range n).zip lines).foldr
+        (fun (i, l) acc => l ++ (if i + 1 < n || nl then term else []) ++ acc) []
+      let rawMax := ((List.range n).zip lens).foldl
+        (fun m (i, len) => max m (len + (if crlf && (i + 1 < n || nl) then 1 else 0))) 0
+      let startsNL := match f with | b :: _ => b == FileScan.NL | [] => false
+      let (ok, why) := fileVerdict rev (nl || n == 0) lines rawMax startsNL obs
+      (runModel rev f, ok, why)
+  | _ => ("bad-case", false, "unparsable case")
+
+def handleRaw (dir hex : String) (obs : String) : String × Bool × String :=
+  match unhex hex with
+  | none => ("bad-case", false, "unparsable case")
+  | some f =>
+    let rev := dir == "rev"
+    let lines := FileScan.fileLines f
+    let nl := f.getLast? == some FileScan.NL || f.isEmpty
+    let rawMax := (FileScan.rawLines f).foldl (fun m l => max m l.length) 0
+    let startsNL := match f with | b :: _ => b == FileScan.NL | [] => false
+    let (ok, why) := fileVerdict rev nl lines rawMax startsNL obs
+    (runModel rev f, ok, why)
 
 /-- returns (model output, spec verdict on the observation, reason) -/
-def handle (_c _obs : String) : String × Bool × String :=
-  ("unimplemented", false, "no model yet")
+def handle (c obs : String) : String × Bool × String :=
+  match words c with
+  | ["arr", helper, io, es] =>
+    match parseElems es with
+    | some elems => handleArr helper (io == "1") elems obs
+    | none => ("bad-case", false, "unparsable case")
+  | ["rdarr", ws, es] =>
+    match parseElems es, ws.toNat? with
+    | some elems, some ws =>
+      let es := elems.filterMap id
+      let model := arrObs (JsonFrame.readArray some (JsonFrame.jsonLex (buildArrDoc ws es)))
+      let want := "ok " ++ hexList es
+      (model, obs == want, if obs == want then "" else s!"want {want}")
+    | _, _ => ("bad-case", false, "unparsable case")
+  | ["rdobj", ws, es] =>
+    match parseEntries es, ws.toNat? with
+    | some ents, some ws =>
+      let model := objObs (JsonFrame.readObject some (JsonFrame.jsonLex (buildObjDoc ws ents)))
+      let want := "ok " ++ fmtList entStr ents
+      (model, obs == want, if obs == want then "" else s!"want {want}")
+    | _, _ => ("bad-case", false, "unparsable case")
+  | ["rdbad", kind, doc] =>
+    match unhex doc with
+    | some d =>
+      let toks := JsonFrame.jsonLex d
+      let model := if kind == "obj" then objObs (JsonFrame.readObject some toks) else arrObs (JsonFrame.readArray some toks)
+      (model, true, "n/a: hand-made document")
+    | none => ("bad-case", false, "unparsable case")
+  | ["lazy", mode, src] => handleLazy mode src obs
+  | "file" :: ts => handleFile ts obs
+  | ["raw", dir, hex] => handleRaw dir hex obs
+  | ["missing", _] =>
+    let want := fmtLines true []
+    (want, obs == want, if obs == want then "" else s!"want {want}")
+  | _ => ("bad-case", false, "unparsable case")
 
 end ShpanVerif.Drive.C20
